@@ -41,7 +41,7 @@ PROPS = {
         "design_ref": "DESIGN.md §3.14 FRESHNAME/PREC, §3.21, §4 C17",
     },
     "C02": {
-        "rules": ["EXH", "PREC", "TOKENGLUE", "DIVMOD", "ALGID", "CONDSPEC", "FRESHNAME", "ENVNAME", "SCALARREF", "WINDOWHOOK", "BACKPIPE", "WINALIAS@live", "FREEONCE"],
+        "rules": ["EXH", "PREC", "TOKENGLUE", "DIVMOD", "ALGID", "INTERVAL", "CONDSPEC", "FRESHNAME", "ENVNAME", "SCALARREF", "WINDOWHOOK", "BACKPIPE", "WINALIAS@live", "FREEONCE"],
         "thorough": [],
         "technique": "static analysis: exhaustive-lowering, C-precedence table embedding, sign-proof dominance for / and %, sibling agreement on by-reference scalars, window-hook call rule",
         "level_text": "Structural clauses of code generation, decided for all programs from the source: lowering dispatches are exhaustive; the C "
@@ -70,7 +70,7 @@ PROPS = {
         "design_ref": "DESIGN.md §3.14, §4 C15",
     },
     "C08": {
-        "rules": ["WINALIAS@live", "ALIASCLOSED", "FREEONCE", "MEMPAIR", "CONSTQ", "DIVMOD", "ALGID", "FLOORENC", "EXH", "BACKPIPE"],
+        "rules": ["WINALIAS@live", "ALIASCLOSED", "FREEONCE", "MEMPAIR", "CONSTQ", "DIVMOD", "ALGID", "INTERVAL", "FLOORENC", "EXH", "BACKPIPE"],
         "thorough": [],
         "technique": "static analysis: alias-closure of liveness, typestate on the pending-free list, allocator/deallocator pairing per Memory class (MRO-resolved), const-from-write-analysis",
         "level_text": "Structural clauses: buffer liveness is closed under window aliasing (no free before a use through a window); each allocation registers one "
@@ -176,7 +176,7 @@ PROPS = {
         "design_ref": "DESIGN.md §3.19, §4 C19",
     },
     "C12": {
-        "rules": ["NAMECONF", "DELGUARD", "MODGUARD", "DIVACCOUNT", "FACTSTATE", "ALGID", "CONDSPEC", "EXH", "TRAV@C12"],
+        "rules": ["NAMECONF", "DELGUARD", "MODGUARD", "DIVACCOUNT", "FACTSTATE", "ALGID", "INTERVAL", "SIZEPOS", "CONDSPEC", "EXH", "TRAV@C12"],
         "thorough": [],
         "technique": "static analysis: identity-by-printed-name rule with triaged site table; dominance (must-facts with branch conditions) of literal tests over every delete/move in simplify; exhaustiveness/traversal of the two rewriters",
         "level_text": "Structural clauses: every place where simplify (or a rewrite it relies on) decides expression identity through printed names is enumerated and classified; "
@@ -188,7 +188,7 @@ PROPS = {
         "design_ref": "DESIGN.md §3.6, §3.21, §4 C12",
     },
     "C03": {
-        "rules": ["FRONTPIPE", "OBLIG", "BOUNDFORM", "FLOORENC", "CFGUNIQ", "ZEROSHORT", "OPTPRED", "FIELDS", "TYPEDISC", "CONDSPEC", "WINALIAS@bounds", "ALIASCLOSED", "WINCOMPOSE", "EXH", "TRAV@C03"],
+        "rules": ["FRONTPIPE", "OBLIG", "BOUNDFORM", "FLOORENC", "CFGUNIQ", "ZEROSHORT", "OPTPRED", "SIZEPOS", "FIELDS", "TYPEDISC", "CONDSPEC", "WINALIAS@bounds", "ALIASCLOSED", "WINCOMPOSE", "EXH", "TRAV@C03"],
         "thorough": [],
         "technique": "static analysis: ordered must-call pipeline at definition time, per-statement-kind obligation table for the bounds checker, formula-shape patterns (0 <= i < dim, 0 < size, 0 <= hi-lo), alias-closure of bounds effects",
         "level_text": "Structural clauses: every parsed procedure passes TypeChecker -> CheckBounds -> Check_Aliasing unconditionally, on the same object, and recorded errors raise; "
@@ -216,7 +216,7 @@ PROPS = {
         "design_ref": "DESIGN.md §3.12, §4 C06",
     },
     "C01": {
-        "rules": ["GUARD", "CONDSPEC", "PREDSPEC", "CHECKFORM", "FLOORENC", "EFFORDER", "LOCSETS", "ZEROSHORT", "COPYIDENT", "CTXSHAPE", "ENVSHADOW", "EQVSHAPE", "ALIASCLOSED", "WINCOMPOSE", "STRIDEKNOWN", "ZIPLEN", "NAMECONF", "FIELDS", "VERDICT", "VERDICTUSE", "LAYER", "CHILDREN", "READKINDS", "EXH", "TRAV@C01", "TRAVBASE", "BYPASS"],
+        "rules": ["GUARD", "CONDSPEC", "PREDSPEC", "CHECKFORM", "SIZEPOS", "LIFTDUP", "FLOORENC", "EFFORDER", "LOCSETS", "ZEROSHORT", "COPYIDENT", "CTXSHAPE", "ENVSHADOW", "EQVSHAPE", "ALIASCLOSED", "WINCOMPOSE", "STRIDEKNOWN", "ZIPLEN", "NAMECONF", "FIELDS", "VERDICT", "VERDICTUSE", "LAYER", "CHILDREN", "READKINDS", "EXH", "TRAV@C01", "TRAVBASE", "BYPASS"],
         "thorough": [],
         "technique": "static analysis: per-primitive obligation table decided by a must-analysis (dominance of side conditions over tree edits, with raising guards, flag assumptions and check-argument provenance), plus comparison/identity/verdict/layering/traversal rules",
         "level_text": "Structural clauses, decided for all programs and schedules from the source: every scheduling primitive reaches its tree edits only through the side conditions "
@@ -230,7 +230,7 @@ PROPS = {
         "design_ref": "DESIGN.md §3.3-3.8, §4 C01, Appendix A",
     },
     "C04": {
-        "rules": ["GUARD", "CONDSPEC", "CHECKFORM", "BINDERS", "ALIASCLOSED", "WINCOMPOSE", "ANNOTSYNC", "READKINDS", "ALLOCSIZE", "STAGEGUARD", "FREEVARS", "COPYIDENT", "ZEROSHORT", "ANCESTORFACT", "RENAMEUSES", "FWDTHREAD", "TRAV@C04", "TRAVBASE", "BYPASS"],
+        "rules": ["GUARD", "CONDSPEC", "CHECKFORM", "SIZEPOS", "BINDERS", "ALIASCLOSED", "WINCOMPOSE", "ANNOTSYNC", "READKINDS", "ALLOCSIZE", "STAGEGUARD", "FREEVARS", "COPYIDENT", "ZEROSHORT", "ANCESTORFACT", "RENAMEUSES", "FWDTHREAD", "TRAV@C04", "TRAVBASE", "BYPASS"],
         "thorough": [],
         "technique": "static analysis: post-edit Check_Bounds/Check_Aliasing obligations and scope guards from the primitive table (must-analysis), binder-coverage of scope-environment builders, renaming of duplicated code",
         "level_text": "Structural clauses: every shape-changing rewrite (expand/resize/fold/stage) passes its result to Check_Bounds after the last edit; primitives that introduce a call or rewrite "
